@@ -16,6 +16,7 @@ PredSet(name) ==
       [] name = "p2x" -> {P(<<1, 0>>, 0), P(<<-1, 0>>, 0), P(<<0, 1>>, 0), P(<<1, 1>>, 1), P(<<-1, -1>>, -2), P(<<1, 0>>, -1)}
       [] name = "p2one" -> {P(<<1, 1>>, 1)}
       [] name = "p1w" -> {P(<<1>>, 0), P(<<1>>, 1), P(<<-1>>, -1)}
+      [] name = "p1v" -> {P(<<1>>, 1), P(<<1>>, 3)}
       [] name = "p1a" -> {P(<<1>>, 0), P(<<1>>, 1), P(<<-1>>, 0)}
       [] name = "p1s" -> {P(<<1>>, 0), P(<<-1>>, -1)}
       [] name = "pp2s" -> {Aff(<<<<1, 0>>, <<0, 1>>>>, <<0, 1>>), P(<<1, 1>>, 1)}
@@ -32,6 +33,8 @@ TermSet(name) ==
       [] name = "t12" -> {Aff(<<<<1>>, <<-1>>>>, <<0, 0>>), Aff(<<<<0>>, <<1>>>>, <<1, 1>>)}
       [] name = "t11o" -> {Aff(<<<<-2>>>>, <<1>>)}
       [] name = "t11s" -> {Aff(<<<<1>>>>, <<0>>), Aff(<<<<-2>>>>, <<1>>)}
+      [] name = "t11p" -> {Aff(<<<<2>>>>, <<4>>)}
+      [] name = "t11q" -> {Aff(<<<<1>>>>, <<2>>)}
       [] name = "t11" -> {Aff(<<<<1>>>>, <<0>>), Aff(<<<<-2>>>>, <<1>>), Aff(<<<<0>>>>, <<1>>)}
       [] name = "t22d" -> {Aff(<<<<2, 4>>, <<6, 2>>>>, <<4, 2>>), Aff(<<<<1, 2>>, <<3, 1>>>>, <<2, 1>>)}      \* no zero entries: safe divisors
       [] name = "t22ds" -> {Aff(<<<<1, 2>>, <<3, 1>>>>, <<2, 1>>)}
